@@ -61,6 +61,7 @@ def _case(draw):
         "zlev": draw(st.lists(gen.fl(0.01, 100.0), min_size=max(nlev, 1), max_size=max(nlev, 1), unique=True)),
         "towers": [[draw(gen.fl(-60.0, 60.0)), draw(gen.fl(-180.0, 180.0)), draw(gen.fl(1.0, 50.0))] for _ in range(ntow)],
         "z0forcing": draw(st.booleans()),
+        "drop_first": draw(st.integers(0, 3)) == 0,  # the configuration has one more (earlier) step than is exported
         "met": [[draw(gen.fl(0.05, 1.0)), draw(gen.fl(-500.0, 500.0)), draw(gen.fl(0.1, 20.0)), draw(gen.fl(0.0, 360.0))]
                 for _ in range(nt)],
         "flx": [[draw(_field_values(per)) for _ in range(nt)] for _ in range(ntow)],
@@ -103,13 +104,19 @@ def _build_synthetic(case):
     grid = (np.squeeze(X), np.squeeze(Y), np.squeeze(Z)) if nlev == 0 else (X, Y, Z)
     shape = (ny, nx) if nlev == 0 else (nlev, ny, nx)
     dt = np.float32 if case["float32"] else np.float64
-    cfg = _config(case["names"], case["towers"], case["z0forcing"], case["met"], case["timestamps"], nx, ny, case["dx"], case["dy"])
+    met, ts, off = case["met"], case["timestamps"], 0
+    if case.get("drop_first") and ts != list(range(len(ts))):
+        # configured series = one extra step in front; only steps 1.. are exported
+        met = [[0.2, -33.0, 1.5, 10.0]] + met
+        ts = [("extra-step" if isinstance(ts[0], str) else -7)] + ts
+        off = 1
+    cfg = _config(case["names"], case["towers"], case["z0forcing"], met, ts, nx, ny, case["dx"], case["dy"])
     results = {}
     with np.errstate(over="ignore"):
         for k, name in enumerate(case["names"]):
             steps = []
             for t in range(len(case["timestamps"])):
-                st_ = cfg.met.get_step(t)
+                st_ = cfg.met.get_step(t + off)
                 steps.append({
                     "grid": grid,
                     "flx": np.asarray(case["flx"][k][t], float).reshape(shape).astype(dt),
